@@ -20,6 +20,8 @@ type FuncResult struct {
 	Trusted   []string
 	Inlined   []string
 	Err       string
+	Inferred  []string
+	InferQueries int
 	InstrKinds []string
 }
 
@@ -115,6 +117,8 @@ func VerifyFunc(w *World, spec *FuncSpec, prop string, safetyAll bool) (res *Fun
 	}
 	res.Obls = x.obls
 	res.Unsup = x.unsup
+	res.Inferred = x.inferredNames
+	res.InferQueries = x.inferQueries
 	for a := range x.assumes {
 		res.Assumes = append(res.Assumes, a)
 	}
